@@ -163,7 +163,11 @@ def join_state(a, b):
             s.val[k] = v
     for k in a.sl.keys() & b.sl.keys():
         x, y = a.sl[k], b.sl[k]
-        s.sl[k] = (min(x[0], y[0]), x[1] & y[1], x[2] if (x[2] is not None and x[2] == y[2]) else None)
+        # an exact length is also a lower bound
+        xs = x[1] | ({x[2]} if x[2] is not None else frozenset())
+        ys = y[1] | ({y[2]} if y[2] is not None else frozenset())
+        ex = x[2] if (x[2] is not None and x[2] == y[2]) else None
+        s.sl[k] = (min(x[0], y[0]), frozenset(z for z in (xs & ys) if z != ex), ex)
     for k in a.ab.keys() & b.ab.keys():
         x, y = a.ab[k], b.ab[k]
         s.ab[k] = (min(x[0], y[0]), max(x[1], y[1]))
@@ -748,7 +752,19 @@ class FnRun(FnAnalysis):
 
     def assign(self, st, place, v):
         loc = self.resolve(st, place)
+        facts = None
+        if v is not None and v[0] == "slice" and ("." in loc or "*" in loc):
+            # a byte buffer stored in memory (struct field / behind a reference) keeps the identity of its
+            # location, so that the facts of all paths that assign it can be joined
+            facts = st.sl.get(v[1], (0, frozenset(), None))
         self.havoc(st, loc)
+        if facts is not None:
+            fsid = "F:" + loc
+            me = "L" + fsid
+            ex = facts[2] if (facts[2] is not None and me not in facts[2].atoms()) else None
+            st.sl[fsid] = (facts[0], frozenset(sy for sy in facts[1] if me not in sy.atoms()), ex)
+            st.val[loc] = ("slice", fsid)
+            return
         if v is not None:
             st.val[loc] = v
 
